@@ -439,7 +439,7 @@ Definition process_panic_class (ovf : bool) (g : config) (p : list N) : N :=
 
 (* a validly configured context: formats PCI/IANA, at most 30 message types, 1..16 vendor sets *)
 Definition valid_cfg (g : config) : bool :=
-  (length (g_msg_types g) <=? 30)%nat && (1 <=? length (g_vendor_ids g))%nat && (length (g_vendor_ids g) <=? 16)%nat
+  (length (g_msg_types g) <=? 30)%nat && (1 <=? length (g_vendor_ids g))%nat && (length (g_vendor_ids g) <=? 255)%nat
   && forallb (fun v => v_format v <=? 1) (g_vendor_ids g).
 
 Definition is_panic_obs (x : obs) : bool := match x with XPanic _ => true | _ => false end.
